@@ -35,12 +35,13 @@ func main() {
 func runCmd(args []string) {
 	fs := flag.NewFlagSet("run", flag.ExitOnError)
 	rounds := fs.Int("rounds", 2, "rounds")
+	realHasher := fs.Bool("realhasher", false, "execute defaultHasher")
 	unwind := fs.Int("unwind", 4, "default unwind")
 	solver := fs.String("solver", "z3-new", "solver")
 	logf := fs.String("log", "", "smt log")
 	fs.Parse(args)
 	rest := fs.Args()
-	ov, _, err := eng.HarnessOverlay("/verif/harness")
+	ov, _, err := eng.HarnessOverlay(harnessDir())
 	if err != nil {
 		panic(err)
 	}
@@ -50,7 +51,7 @@ func runCmd(args []string) {
 		os.Exit(2)
 	}
 	fmt.Println("loaded in", L.LoadDur)
-	inst := eng.Instance{Name: rest[1], Pkg: rest[0], Func: rest[1], Cfg: eng.Config{Rounds: *rounds, DefaultUnwind: *unwind}}
+	inst := eng.Instance{Name: rest[1], Pkg: rest[0], Func: rest[1], Cfg: eng.Config{Rounds: *rounds, DefaultUnwind: *unwind, RealHasher: *realHasher, NoResizeCall: map[int]bool{0: true, 1: true}}}
 	for _, a := range rest[2:] {
 		v, _ := strconv.ParseInt(a, 0, 64)
 		inst.Args = append(inst.Args, v)
@@ -95,7 +96,7 @@ func runCmd(args []string) {
 func diffCmd(args []string) {
 	job := args[0]
 	pkg, fn := args[1], args[2]
-	ov, _, _ := eng.HarnessOverlay("/verif/harness")
+	ov, _, _ := eng.HarnessOverlay(harnessDir())
 	L, err := eng.Load(ov)
 	if err != nil {
 		panic(err)
@@ -189,7 +190,7 @@ func replayCmd(args []string) int {
 		fmt.Println(err)
 		return 2
 	}
-	ov, _, err := eng.HarnessOverlay("/verif/harness")
+	ov, _, err := eng.HarnessOverlay(harnessDir())
 	if err != nil {
 		fmt.Println(err)
 		return 2
@@ -199,7 +200,7 @@ func replayCmd(args []string) int {
 		fmt.Println("load error:", err)
 		return 2
 	}
-	outs, log, err := eng.RunNative(L, "/verif/harness", []*eng.ReplayJob{&job}, false)
+	outs, log, err := eng.RunNative(L, harnessDir(), []*eng.ReplayJob{&job}, false)
 	if err != nil {
 		fmt.Println("native replay failed:", err)
 		fmt.Println(log)
